@@ -553,8 +553,8 @@ func c08mem(v reflect.Value, out map[uintptr]string, depth int) {
 	}
 }
 
-func runClone[T any](typ string, inst fp.Clone[T], pool []T, classes []string, isStruct bool, se func(a, b T) bool) {
-	n, withStorage := 0, 0
+func runClone[T any](typ string, inst fp.Clone[T], pool []T, classes []string, tags []string, isStruct bool, se func(a, b T) bool) {
+	n, withStorage, nested := 0, 0, 0
 	for _, a := range pool {
 		c := inst.Clone(a)
 		n++
@@ -564,30 +564,44 @@ func runClone[T any](typ string, inst fp.Clone[T], pool []T, classes []string, i
 		cm := map[uintptr]string{}
 		c08mem(reflect.ValueOf(&c).Elem(), cm, 0)
 		av := reflect.ValueOf(&a).Elem()
-		check := func(v reflect.Value, class string) {
+		check := func(v reflect.Value, class, tag string) {
 			am := map[uintptr]string{}
 			c08mem(v, am, 0)
 			if len(am) > 0 {
 				withStorage++
+				if tag != "" {
+					nested++
+				}
 			}
 			for p, what := range am {
 				if _, shared := cm[p]; shared {
 					kd := strings.SplitN(what, "|", 2)
-					c08fail("Clone", "shared-storage/"+kd[0], typ, fmt.Sprintf("clone and original share the %s reached through a field of class %s (original %+v)", kd[1], class, a))
+					key := "shared-storage/" + kd[0]
+					if tag != "" {
+						// storage inside a nested plain struct: keyed by visibility mix and regime, not by
+						// the kind of storage that happened to be met first
+						key = "shared-storage/" + tag
+					}
+					c08fail("Clone", key, typ, fmt.Sprintf("clone and original share the %s reached through a field of class %s %s (original %+v)", kd[1], class, tag, a))
 					return
 				}
 			}
 		}
 		if isStruct && av.Kind() == reflect.Struct && av.NumField() == len(classes) {
 			for i := 0; i < av.NumField(); i++ {
-				check(av.Field(i), classes[i])
+				tag := ""
+				if i < len(tags) {
+					tag = tags[i]
+				}
+				check(av.Field(i), classes[i], tag)
 			}
 		} else {
-			check(av, classes[0])
+			check(av, classes[0], "")
 		}
 	}
 	c08stat("Clone", "values", n)
 	c08stat("Clone", "fields_with_mutable_storage", withStorage)
+	c08stat("Clone", "fields_with_storage_in_nested_plain_struct", nested)
 }
 
 func runShow[T any](typ string, inst fp.Show[T], pool []T, rebuilt []T) {
